@@ -76,6 +76,18 @@ StartOff(ps, p) == AlignUp(EndOff(ps, p - 1), EffAlign(ps, p))
 
 StructSize(ps) == AlignUp(EndOff(ps, Len(ps)), StructAlign(ps))
 
+\* C08: offset of part p relative to the start of its BLOCK (the raw C++
+\* codec overlays one struct per block: the main struct and part2, part3 ...);
+\* a block starts at an address aligned to its block alignment, so inside a
+\* block the natural alignments apply
+RECURSIVE RelOff(_, _)
+RelOff(ps, p) ==
+    IF p = 1 \/ ps[p - 1].d THEN 0
+    ELSE AlignUp(RelOff(ps, p - 1) + ps[p - 1].s, ps[p].a)
+RawTable(ps) ==
+    [p \in 1..Len(ps) |-> [j |-> ps[p].j, r |-> ps[p].r, b |-> BlockOf(ps, p), off |-> RelOff(ps, p),
+                           a |-> ps[p].a]]
+
 StructLay(lay, ms) ==
     LET ps == Parts(lay, ms) IN
     [size |-> StructSize(ps), align |-> StructAlign(ps), kind |-> StructKind(Kinds(lay), ms)]
